@@ -70,7 +70,11 @@ def verify_contract(c, src_index, unroll=0, timeout_ms=20000, registry=REGISTRY,
             ex.errors.append(f'path budget {max_paths} exhausted')
             break
         if time.time() - t0 > budget_s:
-            ex.errors.append(f'time budget {budget_s}s exhausted after {ex.paths} paths')
+            msg = f'time budget {budget_s}s exhausted after {ex.paths} paths ({len(ex.worklist)} path prefixes left unexplored)'
+            if getattr(c, 'partial_ok', False):
+                ex.notes.add('PARTIAL: ' + msg)      # explored paths are reported; the contract is NOT counted as fully proved
+            else:
+                ex.errors.append(msg)
             break
         run = Run(ex, prefix)
         it = Interp(run, registry, src_index, dict(c.policy))
